@@ -4,6 +4,7 @@ Run with `lake env lean --run Driver.lean < ops.txt`. One output line per input 
 Anything that does not parse prints `e BadOp` — the driver never defaults.
 -/
 import LnnVerif.Model.PropEngine
+import LnnVerif.Model.Fol
 import Mathlib.Algebra.Order.Field.Rat
 
 open LNN
@@ -46,6 +47,8 @@ structure Ctx where
   nodes : List (Nat × Node Nat Q) := []
   vals : List (Nat × Bounds Q) := []
   leaves : List (Nat × Bounds Q) := []   -- asserted data (`set`), restored by `resetb`
+  fnodes : List (Nat × FNode Nat Q) := []
+  tabs : List (Nat × Table Q) := []
 
 def defaultNode : Node Nat Q := { kind := .atom, bias := 1, alpha := 1 }
 
@@ -62,6 +65,61 @@ def Ctx.state (c : Ctx) : State Nat Q := fun i =>
 /-- re-tabulate a state function on the known ids (keeps closure chains short) -/
 def Ctx.setState (c : Ctx) (s : State Nat Q) : Ctx :=
   { c with vals := c.nodes.map fun p => (p.1, s p.1) }
+
+def defaultFNode : FNode Nat Q := { kind := .pred, bias := 1, alpha := 1, world := ⟨0, 1⟩ }
+
+def Ctx.fkb (c : Ctx) : FKB Nat Q := fun i =>
+  match c.fnodes.find? (·.1 == i) with
+  | some p => p.2
+  | none => defaultFNode
+
+def Ctx.fstate (c : Ctx) : FState Nat Q := fun i =>
+  match c.tabs.find? (·.1 == i) with
+  | some p => p.2
+  | none => []
+
+def Ctx.setFState (c : Ctx) (s : FState Nat Q) : Ctx :=
+  { c with tabs := c.fnodes.map fun p => (p.1, s p.1) }
+
+def parseGr (s : String) : Option Gr :=
+  if s = "-" then some [] else (s.splitOn ".").mapM (·.toNat?)
+
+def showGr (g : Gr) : String := if g.isEmpty then "-" else ".".intercalate (g.map toString)
+
+def parseB (s : String) : Option (Bounds Q) :=
+  match s.splitOn "," with
+  | [l, u] => do some ⟨← parseRat l, ← parseRat u⟩
+  | _ => none
+
+def parseFKind : String → Option FKind
+  | "pred" => some .pred | "not" => some .neg | "and" => some .and | "or" => some .or
+  | "implies" => some .implies | "forall" => some .all | "exists" => some .ex | _ => none
+
+/-- `0.1;1;-` : one slot list per operand -/
+def parseMaps (s : String) : Option (List (List Nat)) :=
+  if s = "-" ∨ s = "" then some [] else (s.splitOn ";").mapM parseGr
+
+def parseFCalls (dir : String) (s : String) : Option (List (FCall Nat)) := do
+  let ids ← parseIds s
+  match dir with
+  | "up" => some (ids.map FCall.up)
+  | "down" => some (ids.map fun i => FCall.down i none)
+  | _ => none
+
+def grLt : Gr → Gr → Bool
+  | [], [] => false
+  | [], _ :: _ => true
+  | _ :: _, [] => false
+  | a :: as, b :: bs => a < b || (a == b && grLt as bs)
+
+def insertSorted (r : Row Q) : List (Row Q) → List (Row Q)
+  | [] => [r]
+  | x :: xs => if grLt r.g x.g then r :: x :: xs else x :: insertSorted r xs
+
+def sortRows (t : Table Q) : List (Row Q) := t.foldl (fun acc r => insertSorted r acc) []
+
+def showTab (i : Nat) (t : Table Q) : String :=
+  s!"{i}:" ++ ";".intercalate ((sortRows t).map fun r => s!"{showGr r.g}={showB r.b}")
 
 def kvs (toks : List String) (key : String) : Option String :=
   toks.findSome? fun t =>
@@ -137,6 +195,67 @@ def step (c : Ctx) (line : String) : Ctx × String :=
     match parseIds ids with
     | some l => (c, s!"c {if hasContra c.kb l c.state then 1 else 0}")
     | none => bad
+  | "fnode" :: id :: kind :: rest =>
+    match id.toNat?, parseFKind kind, (kvs rest "a").bind parseRat, (kvs rest "b").bind parseRat,
+          (kvs rest "t").bind (·.toNat?), (kvs rest "ops").bind parseOps,
+          (kvs rest "maps").bind parseMaps, (kvs rest "world").bind parseB,
+          (kvs rest "free").bind parseGr, (kvs rest "fg").bind (·.toNat?),
+          (kvs rest "nested").bind (·.toNat?), (kvs rest "prop").bind (·.toNat?) with
+    | some i, some k, some a, some b, some t, some ops, some maps, some w, some free, some fg,
+      some nested, some prop =>
+      let n : FNode Nat Q :=
+        { kind := k, ops := ops.map (·.1), ws := ops.map (·.2), bias := b, alpha := a,
+          transparent := t != 0, opmap := maps, world := w, free := free, fullyGrounded := fg != 0,
+          nested := nested != 0 }
+      -- a formula without variables (fully quantified) holds the single empty grounding
+      let t0 : Table Q := if prop != 0 then [⟨[], w, w⟩] else []
+      ({ c with fnodes := c.fnodes.filter (·.1 != i) ++ [(i, n)],
+                tabs := c.tabs.filter (·.1 != i) ++ [(i, t0)] }, "ok")
+    | _, _, _, _, _, _, _, _, _, _, _, _ => bad
+  | ["fact", id, g, l, u] =>
+    match id.toNat?, parseGr g, parseRat l, parseRat u with
+    | some i, some g, some l, some u =>
+      let s := c.fstate
+      (c.setFState (Function.update s i (Table.addData (c.fkb i).world (s i) g ⟨l, u⟩)), "ok")
+    | _, _, _, _ => bad
+  | ["fup", id] =>
+    match id.toNat? with
+    | some i => let r := fUp c.fkb i c.fstate; (c.setFState r.1, s!"r {showRat r.2}")
+    | none => bad
+  | ["fdown", id, idx] =>
+    match id.toNat?, parseOptNat idx with
+    | some i, some k => let r := fDown c.fkb i k c.fstate; (c.setFState r.1, s!"r {showRat r.2}")
+    | _, _ => bad
+  | ["fpass", dir, ids] =>
+    match parseFCalls dir ids with
+    | some calls => let r := runFCalls c.fkb calls c.fstate; (c.setFState r.1, s!"r {showRat r.2}")
+    | none => bad
+  | ["finfer", eps, mx, nodes, ups, downs] =>
+    match parseRat eps, mx.toNat?, parseIds nodes, parseFCalls "up" ups, parseFCalls "down" downs with
+    | some eps, some mx, some nodes, some u, some d =>
+      let r := fInfer c.fkb nodes u d eps mx c.fstate
+      (c.setFState r.state, s!"n {r.steps} {showRat r.total} {if r.converged then 1 else 0}")
+    | _, _, _, _, _ => bad
+  | ["ftab", ids] =>
+    match parseIds ids with
+    | some l => (c, "t " ++ " ".intercalate (l.map fun i => showTab i (c.fstate i)))
+    | none => bad
+  | ["fkeys", ids] =>
+    match parseIds ids with
+    | some l => (c, "g " ++ " ".intercalate (l.map fun i =>
+        s!"{i}:" ++ ";".intercalate ((sortRows (c.fstate i)).map fun r => showGr r.g)))
+    | none => bad
+  | ["fget", id, g] =>
+    match id.toNat?, parseGr g with
+    | some i, some g => (c, s!"b {showB (Table.getD (c.fkb i).world (c.fstate i) g)}")
+    | _, _ => bad
+  | ["fcontra", ids] =>
+    match parseIds ids with
+    | some l => (c, s!"c {if fHasContra c.fkb l c.fstate then 1 else 0}")
+    | none => bad
+  | ["fresetb"] =>
+    let s := c.fstate
+    (c.setFState (fun i => (s i).resetBounds), "ok")
   | ["state", a, l, u] =>
     match parseRat a, parseRat l, parseRat u with
     | some a, some l, some u =>
